@@ -1,0 +1,37 @@
+//go:build verif
+
+package cmap
+
+import (
+	"seehuhn.de/go/dijkstra"
+	"seehuhn.de/go/sfnt/glyph"
+)
+
+// VerifSegment mirrors the unexported segment type for the verification harness.
+type VerifSegment struct {
+	First, Last, Delta uint16
+	UseValues          bool
+}
+
+// VerifAppendEdges returns the format 4 segments proposed at vertex v.
+func VerifAppendEdges(m map[uint16]glyph.ID, v uint32) []VerifSegment {
+	segs := makeSegments(m).AppendEdges(nil, v)
+	out := make([]VerifSegment, len(segs))
+	for i, s := range segs {
+		out[i] = VerifSegment{s.first, s.last, s.delta, s.useValues}
+	}
+	return out
+}
+
+// VerifPath returns the segments chosen for the format 4 encoding of m.
+func VerifPath(m map[uint16]glyph.ID) ([]VerifSegment, error) {
+	segs, err := dijkstra.ShortestPath[uint32, *segment, int](makeSegments(m), 0, 0x10000)
+	if err != nil {
+		return nil, err
+	}
+	out := make([]VerifSegment, len(segs))
+	for i, s := range segs {
+		out[i] = VerifSegment{s.first, s.last, s.delta, s.useValues}
+	}
+	return out, nil
+}
